@@ -529,6 +529,9 @@ static void sv_step(Step const& s, Vec (&v)[2], Out& o)
     else if (op == "mva") { x = etl::move(y); y.clear(); }
     else if (op == "cpc") { if constexpr (copyable) { Vec c(x); o.b(c == x); print_vec(o, c); } else { unsupported(); } }
     else if (op == "mrt") { Vec tmp(etl::move(x)); print_vec(o, tmp); x = etl::move(tmp); }
+    // the moves with the source LEFT AS IT IS (observed after the step like every object, and used on by the next steps)
+    else if (op == "mvo") { x = etl::move(y); }
+    else if (op == "mco") { Vec c(etl::move(x)); print_vec(o, c); }
     else if (op == "eif") { auto id = static_cast<int>(A(0)); o.num(static_cast<i64>(etl::erase_if(x, [&](T const& e) { return pred_of(id, get(e)); }))); }
     else if (op == "erv") { o.num(static_cast<i64>(etl::erase(x, val(0)))); }
     else if (op == "rel") { auto& a = v[0]; auto& b = v[1]; o.b(a == b).b(a != b).b(a < b).b(a <= b).b(a > b).b(a >= b); }
@@ -633,6 +636,15 @@ static void st_step(Step const& s, St (&v)[2], Out& o)
     else if (op == "mvc") { St c(etl::move(x)); x = St{}; print_vec(o, c.cont()); }
     else if (op == "cpa") { if constexpr (copyable) { x = y; } else { unsupported(); } }
     else if (op == "mva") { x = etl::move(y); y = St{}; }
+    else if (op == "mvo") { x = etl::move(y); }
+    else if (op == "mco") { St c(etl::move(x)); print_vec(o, c.cont()); }
+    else if (op == "fro") {
+        // stack(Container&&): the container argument is printed as the constructor leaves it
+        auto src = mkvec<T>(s.xs);
+        C cont;
+        cont.move_insert(cont.begin(), src.data(), src.data() + src.size());
+        St tmp(etl::move(cont)); o.num(static_cast<i64>(tmp.size())); print_vec(o, cont); x = etl::move(tmp);
+    }
     else if (op == "sca") { if constexpr (copyable) { auto& r = x; x = r; } else { unsupported(); } }
     else if (op == "fcc") {
         if constexpr (copyable) { auto src = mkvec<T>(s.xs); C cont(src.data(), src.data() + src.size()); St tmp(cont); o.num(static_cast<i64>(tmp.size())); x = etl::move(tmp); }
@@ -722,6 +734,8 @@ static void iv_step(Step const& s, Vec* (&v)[2], Out& o)
     }
     else if (op == "cpa") { if constexpr (copyable) { x = y; } else { unsupported(); } }
     else if (op == "mva") { x = etl::move(y); y.clear(); }
+    else if (op == "mvo") { x = etl::move(y); }
+    else if (op == "mco") { Vec c(etl::move(x)); print_vec(o, c); }
     else if (op == "sca") { if constexpr (copyable) { auto& r = x; x = r; } else { unsupported(); } }
     else if (op == "sma") { auto& r = x; x = etl::move(r); }
     else if (op == "sat") { auto& r = x[static_cast<std::size_t>(A(0))]; r = val(1); o.num(&r - x.data()); }
@@ -1007,7 +1021,7 @@ static std::vector<Step> parse(Toks& in)
             else if (is({"irg", "mir"})) { need(1); s.xs = in.list(); }
             else if (is({"irk", "mik"})) { need(2); s.xs = in.list(); }     // kind, position, range
             else if (is({"ask", "ctk"})) { need(1); s.xs = in.list(); }     // kind, range
-            else if (is({"asr", "ctr", "cta", "fcc", "fcr"})) { s.xs = in.list(); }
+            else if (is({"asr", "ctr", "cta", "fcc", "fcr", "fro"})) { s.xs = in.list(); }
         }
         steps.push_back(s);
     }
@@ -1093,6 +1107,45 @@ static void std_source_after(Out& o, int how, std::vector<i64> const& xs)
     else if (g_elem == "iln") { std_source_after_t<IlN>(o, how, xs); }
     else if (g_elem == "ilt") { std_source_after_t<IlT>(o, how, xs); }
     else { std_source_after_t<int>(o, how, xs); }
+}
+// ---- reference: the object a move leaves behind, with the flavour's own element type T.
+//   how 0  static_vector / stack: a fixed-capacity vector has no allocation to hand over, its move members move the elements
+//          one by one: the source keeps its size, each element is a moved-from T
+//          (std::vector<T> dst(make_move_iterator(first), make_move_iterator(last)) leaves exactly that)
+//   how 1  inplace_vector move construction, how 2 move assignment: trivially movable T -> the container is trivially
+//          movable itself ([inplace.vector.overview]), the source is unchanged; otherwise what std::vector<T> leaves: empty
+inline bool g_iv = false;   // the running flavour is an inplace_vector
+template <typename T>
+static RV std_after_move_t(RV const& codes, int how)
+{
+    std::vector<T> src;
+    for (auto c : codes) { src.push_back(mk<T>(c)); }
+    if (how == 0) { std::vector<T> dst(std::make_move_iterator(src.begin()), std::make_move_iterator(src.end())); }
+    else if (how == 1) {
+        if constexpr (!std::is_trivially_move_constructible_v<T>) { std::vector<T> dst(std::move(src)); }
+    } else {
+        if constexpr (!(std::is_trivially_move_assignable_v<T> && std::is_trivially_move_constructible_v<T> && std::is_trivially_destructible_v<T>)) {
+            std::vector<T> dst;
+            dst = std::move(src);
+        }
+    }
+    RV out;
+    for (auto const& e : src) { out.push_back(get(e)); }   // NOLINT(bugprone-use-after-move): the point of the exercise
+    return out;
+}
+static RV std_after_move(RV const& codes, int how)
+{
+    if (g_elem == "trk") { return std_after_move_t<Tracked>(codes, how); }
+    if (g_elem == "pod") { return std_after_move_t<Pod>(codes, how); }
+    if (g_elem == "nxc") { return std_after_move_t<NxCopy>(codes, how); }
+    if (g_elem == "str") { return std_after_move_t<std::string>(codes, how); }
+    if (g_elem == "mov") { return std_after_move_t<MoveOnly>(codes, how); }
+    if (g_elem == "tdc") { return std_after_move_t<TdcCopy>(codes, how); }
+    if (g_elem == "kt") { return std_after_move_t<KeyTag>(codes, how); }
+    if (g_elem == "vi") { return std_after_move_t<VI>(codes, how); }
+    if (g_elem == "iln") { return std_after_move_t<IlN>(codes, how); }
+    if (g_elem == "ilt") { return std_after_move_t<IlT>(codes, how); }
+    return std_after_move_t<int>(codes, how);   // int, long long, double: a move is a copy
 }
 template <typename C>
 static void six_relations(Out& o, C const& a, C const& b) { o.b(a == b).b(a != b).b(a < b).b(a <= b).b(a > b).b(a >= b); }
@@ -1238,6 +1291,8 @@ static bool std_step(Step const& s, RV (&v)[2], std::size_t cap, Out& o)
     else if (op == "fsw") { using std::swap; swap(v[0], v[1]); }
     else if (op == "cpa") { x = y; }
     else if (op == "mva") { x = std::move(y); y.clear(); }
+    else if (op == "mvo") { x = y; y = std_after_move(y, g_iv ? 2 : 0); }
+    else if (op == "mco") { print_std(o, x); x = std_after_move(x, g_iv ? 1 : 0); }
     else if (op == "cpc") { RV c(x); o.b(c == x); print_std(o, c); }
     else if (op == "mrt") { RV tmp(std::move(x)); print_std(o, tmp); x = std::move(tmp); }
     else if (op == "eif") { auto id = I(0); o.num(static_cast<i64>(std::erase_if(x, [&](int e) { return pred_of(id, e); }))); }
@@ -1307,6 +1362,9 @@ static bool std_stack_step(Step const& s, RefStack (&v)[2], std::size_t cap, Out
     else if (op == "mvc") { RefStack c(std::move(x)); x = RefStack{}; print_std(o, c.cont()); }
     else if (op == "cpa") { x = y; }
     else if (op == "mva") { x = std::move(y); y = RefStack{}; }
+    else if (op == "mvo") { RV l = y.cont(); x = RefStack(l); y = RefStack(std_after_move(l, 0)); }
+    else if (op == "mco") { RV l = x.cont(); print_std(o, l); x = RefStack(std_after_move(l, 0)); }
+    else if (op == "fro") { if (s.xs.size() > cap) { return false; } RV cont(s.xs.begin(), s.xs.end()); RefStack tmp(cont); o.num(static_cast<i64>(tmp.size())); print_std(o, std_after_move(cont, 0)); x = std::move(tmp); }
     else if (op == "sca") { auto& r = x; x = r; }
     else if (op == "fcc") { if (s.xs.size() > cap) { return false; } RV cont(s.xs.begin(), s.xs.end()); RefStack tmp(cont); o.num(static_cast<i64>(tmp.size())); x = std::move(tmp); }
     else if (op == "fcr") { if (s.xs.size() > cap) { return false; } RV cont(s.xs.begin(), s.xs.end()); RefStack tmp(std::move(cont)); o.num(static_cast<i64>(tmp.size())); x = std::move(tmp); }
@@ -1338,6 +1396,7 @@ bool vh::run_case(std::string const& op, Toks& in, Out& impl, Out& ref)
     {
         auto us = flavour.find('_');
         g_elem  = (us == std::string::npos || flavour == "stack") ? std::string("int") : flavour.substr(us + 1);
+        g_iv    = flavour.rfind("iv", 0) == 0;
     }
     // reference
     Out rr;
